@@ -24,8 +24,8 @@ TIERS = {
     "C14": {"quick": (24000, 1), "thorough": (600000, 1)},
     "C11": {"quick": (24000, 1), "thorough": (800000, 1)},
     "C20": {"quick": (6000, 2), "thorough": (120000, 3)},
-    "C07": {"quick": (4000, 2), "thorough": (150000, 3)},
-    "C06": {"quick": (4000, 2), "thorough": (150000, 3)},
+    "C07": {"quick": (4000, 2), "thorough": (60000, 3)},
+    "C06": {"quick": (4000, 2), "thorough": (80000, 3)},
     "C03": {"quick": (6000, 2), "thorough": (120000, 3)},
 }
 
